@@ -17,6 +17,8 @@ PROBES = ('BasicLexer._build_scanner', 'BasicLexer.scanner', 'BasicLexer.search_
           '_get_parser', 'TreeMatcher.match_tree', 'ParserState.feed_token', 'Parser.parse', 'PatternRE._get_width', 'Pattern.min_width',
           'ParsingFrontend._scan', 'Lark.__init__', 'Grammar.compile', 'ForestToParseTree.visit_packed_node_in', 'Indenter._process')
 
+OPCODE_FUNCS = ('BasicLexer.scanner', 'BasicLexer.search_scanner', 'BasicLexer._build_scanner', 'PatternRE._get_width', 'TreeMatcher.match_tree',
+                '_get_parser', 'Tree.meta', 'BasicLexer.match', 'ContextualLexer.lex', 'LexerThread.lex', 'ParsingFrontend._make_lexer_thread')
 THREAD_CFG_EXCLUDE = ('ind/',)          # user-supplied stateful post-lexer: excluded from the threaded part by the statement
 
 
@@ -46,8 +48,7 @@ class C10(Check):
                   'simulated': ['thread scheduling (baton passing at sys.settrace line events inside lark frames)', 'locks / conditions (intercepted)',
                                 'interrupts (exception raised at the n-th traced line)'],
                   'stubbed': [], 'not_exercised': ['atomicwrites', 'pydot debug visitor', 'free-threaded builds']}
-    ASSUMPTIONS = ['pre-emption at source-line granularity inside <repo>/lark frames only; a race window inside one source line or inside stdlib '
-                   'code is invisible', 'user callbacks / transformers in the corpus are pure, as the statement requires',
+    ASSUMPTIONS = ['pre-emption at source-line granularity inside <repo>/lark frames only; a race window inside one source line or inside stdlib code is invisible (bytecode-granular pre-emption through f_trace_opcodes was built and is kept off: it crashes CPython 3.12.1 with a segmentation fault when used with several threads)', 'user callbacks / transformers in the corpus are pure, as the statement requires',
                    'stateful post-lexers take part only in single-thread histories', 'texts <= 60 characters from the corpus / sentence generator']
 
     def setup(self, tier):
@@ -146,6 +147,7 @@ class C10(Check):
                 plan['warm'] = ['parse', W.gen_text(rng, cfg, p, st), st]
             plan['tasks'] = tasks
             plan['strategy'] = _strategy(rng)
+            plan['opcode'] = False                    # bytecode-granular pre-emption (f_trace_opcodes) segfaults CPython 3.12.1 under threads: kept off
             plan['interrupts'] = []
             if rng.random() < 0.2:
                 t = rng.randrange(nt)
@@ -202,7 +204,8 @@ class C10(Check):
         shared = {}
         if plan.get('warm'):
             O.run_op(p, e, plan['warm'], {}, shared=shared)
-        sch = S.Scheduler(plan['strategy'], seed=plan['sched_seed'], forced=forced, lark_root=self.lark_root, probes=PROBES)
+        sch = S.Scheduler(plan['strategy'], seed=plan['sched_seed'], forced=forced, lark_root=self.lark_root, probes=PROBES,
+                          opcode_funcs=OPCODE_FUNCS if plan.get('opcode') else ())
         intr = {}
         for t, k, n in plan.get('interrupts', []):
             intr.setdefault(t, {})[k] = n
